@@ -47,6 +47,7 @@ type thread struct {
 	blocked bool // released at site 3 while the lazy's initialiser is parked: waiting for fn.mu
 
 	curOp   string        // kind of the operation in flight ("ash", "store", …)
+	path    []string      // yield sites the operation in flight has passed (branch coverage)
 	inHook  bool          // inside the re-entrant store hook called by AddStoreHook
 	inInner atomic.Bool   // performing an operation inside that hook: yield points are not honoured
 	inner   func() string // the operation to perform inside the hook on the next release (nil: return from the hook)
@@ -384,9 +385,12 @@ func (s *stepCase) settle(t int, line string) bool {
 	th.blocked = false
 	if a.returned {
 		th.busy, th.site, th.lazy = false, 0, nil
+		// which branch of the method ran: the yield sites passed and the kind of result
+		s.c.Hit("branch-" + th.curOp + "-" + strings.Join(th.path, ".") + "-" + strings.Fields(a.ret + " -")[0])
 		s.emit(line, "ret "+a.ret)
 	} else {
 		th.site = a.site
+		th.path = append(th.path, fmt.Sprint("y", a.site))
 		if a.site == 3 {
 			th.lazy = a.obj
 		}
@@ -421,6 +425,7 @@ func (s *stepCase) do(line string) bool {
 		}
 		s.c.Hit("step-op-" + f[2])
 		th.curOp = f[2]
+		th.path = nil
 		s.ctl.start(t, op)
 		return s.settle(t, line)
 	case "inner":
